@@ -4,7 +4,12 @@
 "generated definition = hand-written model definition, for all inputs" can be a machine-checked theorem
 (coq/Proofs_Gen*.v) that is re-checked against the regenerated file on every run.
 
-usage: tr_cfun.py <libdir> <out.v> <target>          (tools/tr_vlens.py, tools/tr_scs.py, ... are thin wrappers)
+usage: tr_cfun.py <libdir> <out.v> <target>          (tools/tr_vlens.py, tools/tr_scs.py, tools/tr_contig.py are thin
+                                                      wrappers so that C.prove(pid, gens=(..., '<target>')) finds them)
+Targets (TARGETS below):  vlens  = ncmpio_NC_check_vlen, ncmpio_NC_check_vlens (ncmpio_enddef.c)  -> Gen_vlens.v, C18
+                          scs    = check_EINVALCOORDS, check_EEDGE, check_start_count_stride (var_getput.c) -> Gen_scs.v, C15
+                          contig = is_request_contiguous (ncmpio_filetype.c)                      -> Gen_contig.v, C01
+Equivalence proofs against the hand-written model: coq/Proofs_GenVlens.v, Proofs_GenScs.v, Proofs_GenContig.v.
 
 Meaning of the generated code: coq/CSub.v.  The subset:
   * integer locals and parameters (int, long long = MPI_Offset, unsigned ..., enums), parameters never assigned;
